@@ -90,7 +90,10 @@ NESTED = [('once_t', ('not', X), 0, 1), ('always_t', ('geq', X, C05), 1, 2), ('e
           ('and', ('once', X), ('historically', X)), ('not', ('once_t', X, 0, 1)), ('or', ('always_t', X, 0, 1), X),
           ('sub', ('once_t', X, 0, 1), ('historically_t', X, 0, 1)), ('implies', ('once', ('geq', X, C05)), ('always_t', ('leq', X, ('const', 2.0)), 0, 1)),
           ('and', ('once_t', X, 0, 1), ('always_t', Y, 0, 1)), ('geq', ('eventually_t', X, 0, 1), ('once', Y)), ('eventually', ('and', ('geq', X, C05), ('leq', X, ('const', 2.0)))),
-          ('always', ('neg', X)), ('or', ('eventually', X), ('always', ('not', X)))]
+          ('always', ('neg', X)), ('or', ('eventually', X), ('always', ('not', X))),
+          ('once', ('once', X)), ('historically', ('historically', X)), ('once', ('historically', X)), ('historically', ('once', X)),
+          ('once', ('and', ('once', X), ('neg', X))), ('historically', ('or', ('historically', X), ('abs', X))), ('eventually', ('always', X)),
+          ('always', ('eventually', ('not', X))), ('once', ('eventually', X)), ('once_t', ('once', X), 0, 1), ('eventually_t', ('historically', X), 0, 1)]
 
 
 def obligations(tier, rng):
